@@ -452,4 +452,79 @@ def rule_fresh(ctx):
     return r
 
 
-RULES = [rule_threadkey, rule_fresh]
+def rule_ownrun(ctx):
+    """search() hands back ``self.last_opt.tree`` (this thread's last suboptimizer)
+    exactly when _maybe_run_optimizer says 'searched'.  So every return of
+    _maybe_run_optimizer whose flag can still be True must lie behind this
+    thread's own _run_optimizer call."""
+    from .c14 import _policy_names
+
+    r = RuleResult("C16-OWNRUN", "'searched' is reported only by the thread that searched", 2)
+    ro = ctx.p.cls(C.REUSABLE, "ReusableOptimizer")
+    f = ro.methods.get("_maybe_run_optimizer")
+    C.require(f is not None, "_maybe_run_optimizer not found")
+    K, M, CON, SR, hq = _policy_names(ctx, f)
+    C.require(SR is not None, "searched-flag of _maybe_run_optimizer not recognised")
+    fl = ctx.flow(f)
+    cfg = fl.cfg
+    runs = [n.id for n, c in fl.calls() if isinstance(c.func, ast.Attribute)
+            and c.func.attr == "_run_optimizer"]
+    clears = [n.id for n in cfg.nodes if n.kind == "stmt" and isinstance(n.ast, ast.Assign)
+              and isinstance(n.ast.targets[0], ast.Name) and n.ast.targets[0].id == SR
+              and isinstance(n.ast.value, ast.Constant) and n.ast.value.value is False]
+    tests = [n for n in cfg.nodes if n.kind == "test" and isinstance(n.ast, ast.If)
+             and isinstance(n.ast.test, ast.Name) and n.ast.test.id == SR]
+    C.require(tests, "`if <searched flag>:` not found")
+    for rt in fl.returns():
+        v = rt.ast.value
+        key = ctx.key(f, "C16-OWNRUN", f"return@{'flag' if v is not None else 'none'}")
+        if not (isinstance(v, ast.Tuple) and v.elts and isinstance(v.elts[0], ast.Name)
+                and v.elts[0].id == SR):
+            if isinstance(v, ast.Tuple) and v.elts and isinstance(v.elts[0], ast.Constant) \
+                    and v.elts[0].value is False:
+                r.ok(key, C.loc(f, rt.ast), "returns searched=False")
+                continue
+            r.violation(key, C.loc(f, rt.ast), "return value is not (searched-flag, record)")
+            continue
+        bad = None
+        for t in tests:
+            # first node of the true branch
+            tb = [sid for sid in cfg.succ[t.id] if cfg.branch.get((t.id, sid)) is True]
+            for start in tb:
+                if start in runs or start in clears:
+                    continue
+                if start == rt.id:
+                    bad = [t.id, start]
+                    break
+                p = cfg.path_avoiding(start, runs + clears, dst=rt.id)
+                if p is not None:
+                    bad = [t.id] + p
+                    break
+            if bad:
+                break
+        if bad:
+            r.violation(key, C.loc(f, rt.ast), "this return can report searched=True on a path "
+                        "on which this thread did not run the suboptimizer itself; search() "
+                        "then hands back self.last_opt.tree — the tree of whatever this thread "
+                        "searched last", path=cfg.describe_path(bad))
+        else:
+            r.ok(key, C.loc(f, rt.ast), "searched=True only behind this thread's own search")
+    # search(): last_opt.tree only under the flag
+    s_ = ro.methods.get("search")
+    key = ctx.key(s_, "C16-OWNRUN", "search")
+    lasts = [n for n in walk_local(s_.node) if isinstance(n, ast.Attribute) and n.attr == "tree"
+             and "last_opt" in ast.unparse(n.value)]
+    ok = bool(lasts) and all(any(t and isinstance(i.test, ast.Name)
+                                 for i, t in C.enclosing_ifs(s_, C.enclosing_stmt(s_, n)))
+                             for n in lasts)
+    if ok:
+        r.ok(key, s_.loc, "last_opt.tree is returned only under the searched flag")
+    elif not lasts:
+        r.ok(key, s_.loc, "search() does not use per-thread leftovers")
+    else:
+        r.violation(key, s_.loc, "search() returns last_opt.tree without checking that this "
+                    "query searched")
+    return r
+
+
+RULES = [rule_threadkey, rule_fresh, rule_ownrun]
